@@ -153,6 +153,26 @@ theorem string_route (look : Lookup) (env : NameEnv) (e : AnnExpr) (au : Bool) :
     visEval env au (.str e) = astEval (visLookup env) au e := by
   simp [astEval, rtEval, tnorm, visEval]
 
+/-- **The `allow_unpack` flag is the same in every route.** For a parameter of kind `k` the def-node
+route (`compute_parameters`, with whatever evaluator `eval` the visitor supplies) and the function-object
+route (`from_signature`) both evaluate the annotation with `allowUnpackK k` and translate it with
+`translateVararg k`; and quoting keeps the flag in all three evaluators — so `*args: "Unpack[…]"` reads as
+`*args: Unpack[…]` does. -/
+theorem unpack_flag_routes_agree (look : Lookup) (env : NameEnv) (eval : Bool → AnnExpr → Option Res)
+    (m : Option Cls) (i : Nat) (k : Kind) (n : String) (e : AnnExpr) (d : Option DVal) (df : Option Dflt) :
+    (defParam eval m i k ⟨n, some e⟩ d).map (·.ann) = (eval (allowUnpackK k) e).map (translateVararg k) ∧
+    (inspParam look m i ⟨n, k, df, some e⟩).map (·.ann) =
+      (rtEval look (allowUnpackK k) e).map (translateVararg k) ∧
+    (∀ au, astEval look au (.str e) = astEval look au e ∧ rtEval look au (.str e) = astEval look au e ∧
+      visEval env au (.str e) = astEval (visLookup env) au e) := by
+  refine ⟨?_, ?_, ?_⟩
+  · simp [defParam, Option.map_map, Function.comp_def]
+  · simp [inspParam, Option.map_map, Function.comp_def]
+  · intro au; simp [astEval, rtEval, visEval]
+
+/-- **Where the implementation threads the flag (regenerated obligation).** -/
+theorem unpack_flag_threaded : flagCalls = registeredFlagCalls := by decide
+
 /-! ## 2. annotations in checked source -/
 
 /-- The full statement for the in-source route (not asserted: false on `starUnpack`): the visitor's
